@@ -28,9 +28,9 @@ std::vector<Op> *ops;        // allocated on the real heap (oracle scope)
 bool final_seen;
 std::vector<uint32_t> *final_vals;
 
-enum { PB_CONSUME_NONEMPTY = 0, PB_CONSUME_DURING_PUSH, PB_BATCHES_GE2, PB_SIZE_NONZERO, PB_OVERLAP, PB_LIN_BUDGET, PB_BULK };
+enum { PB_CONSUME_NONEMPTY = 0, PB_CONSUME_DURING_PUSH, PB_BATCHES_GE2, PB_SIZE_NONZERO, PB_OVERLAP, PB_LIN_BUDGET, PB_BULK, PB_BIG_ELEMENTS };
 const char *bprobe_names[] = {"consume_returned_items", "consume_overlapped_a_push", "items_split_over_two_or_more_batches",
-                              "size_observed_nonzero", "operations_overlapped", "linearizability_search_budget_exhausted_history_unjudged", "producer_with_100_to_3000_elements", nullptr};
+                              "size_observed_nonzero", "operations_overlapped", "linearizability_search_budget_exhausted_history_unjudged", "producer_with_100_to_3000_elements", "elements_of_48KiB", nullptr};
 const char *no_faults[] = {nullptr};
 
 void breset()
@@ -73,6 +73,14 @@ void bplan_fn(int tier)
     // by conservation and order only, it is far too long for the linearizability search
     bplan.nitems[sim_plan((uint32_t)bplan.nproducers)] = 100 + (int)sim_plan(tier ? 2900 : 900);
     sim_probe(PB_BULK);
+    if (sim_plan(2)) {
+      // ... of 48 KiB each: the buffer holds tens of megabytes
+      bplan.payload = 2;
+      for (int pi = 0; pi < bplan.nproducers; pi++)
+        if (bplan.nitems[pi] >= 100)
+          bplan.nitems[pi] = 100 + bplan.nitems[pi] % 500;
+      sim_probe(PB_BIG_ELEMENTS);
+    }
   }
 }
 
@@ -221,7 +229,7 @@ int stuck(int deadlock, char *cls, size_t n)
 
 void bdescribe(char *buf, size_t n)
 {
-  int k = snprintf(buf, n, "{\"payload\": \"%s\", \"producers\": %d, \"items\": [", bplan.payload ? "std::string" : "int", bplan.nproducers);
+  int k = snprintf(buf, n, "{\"payload\": \"%s\", \"producers\": %d, \"items\": [", bplan.payload == 2 ? "48 KiB struct" : (bplan.payload ? "std::string" : "int"), bplan.nproducers);
   for (int i = 0; i < bplan.nproducers; i++)
     k += snprintf(buf + k, n - k, "%s%d", i ? "," : "", bplan.nitems[i]);
   k += snprintf(buf + k, n - k, "], \"consumer_is_thread\": %d, \"consumer_ops\": [", bplan.consumer_thread);
